@@ -1,10 +1,17 @@
 #!/bin/bash
-# Run once after a fresh restore, offline: warms the Go build cache so that
-# later per-check rebuilds are incremental.
+# Run once after a fresh restore, offline: builds the tools and warms the Go
+# build cache so that later per-check rebuilds are incremental.
 set -u
 cd "$(dirname "$0")"
 . ./env.sh
 mkdir -p bin evidence replays
 cp /repo/go.sum harness/go.sum
+( cd tools/rewrite && go build -o ../../bin/rewrite . ) || exit 1
 ( cd harness && go build -o ../bin/verif ./cmd/verif ) || exit 1
+ov=$(mktemp -d /var/tmp/verif-ov.XXXXXX)
+./bin/rewrite -out "$ov" -shim "$(pwd)/harness/shim" pkg/kube/client.go pkg/kube/wait.go pkg/storage/driver/memory.go >/dev/null \
+  && ( cd harness && go build -tags vsched -overlay "$ov/overlay.json" -o ../bin/verif-vsched ./cmd/verif )
+rc=$?
+rm -rf "$ov"
+[ $rc -eq 0 ] || exit 1
 ./bin/verif list
